@@ -11,6 +11,7 @@ type OptDecl struct {
 	Flag   bool     // bool flag
 	Multi  bool
 	EnvSet bool // backed by a set, valid env var
+	EnvVal string // the value of that variable (default: "true" for flags, "envval" otherwise)
 	Int    bool // typed declaration: values must be base-10 integers (trees of C07)
 }
 
